@@ -143,7 +143,15 @@ class SyncedList(SyncedCollection, MutableSequence):
                 # inserting at the beginning will require reconverting all
                 # elements of the data.
                 for i in range(min(len(self), len(data))):
-                    if data[i] == self._data[i]:
+                    # Python equality identifies True, 1 and 1.0, which are
+                    # different JSON values, so only skip values that are
+                    # equal and of the same type. Nested collections are
+                    # never of the same type as the incoming plain data and
+                    # are updated recursively below.
+                    if (
+                        type(data[i]) is type(self._data[i])
+                        and data[i] == self._data[i]
+                    ):
                         continue
                     if _sc_resolver.get_type(self._data[i]) == "SYNCEDCOLLECTION":
                         try:
